@@ -64,6 +64,19 @@ def inputs(chk):
             files[fn] = corpus.mutate_bytes(rng, files[fn], rng.randrange(1, 3))
             kind = "byte"
         jobs.append(("%s:%s" % (kind, name), files))
+    # generated well-typed programs (tools/capygen.py: the fragment of CapySem.tla), then mutated
+    import capygen
+    from props import c08
+    ng = 200 if chk.tier == "quick" else 6000
+    for k in range(ng):
+        text = c08.prelude() + capygen.Render().program(capygen.Gen(chk.seed * 6007 + 60000 + k, size=6 + k % 12).program())
+        if rng.random() < 0.7:
+            text = corpus.mutate_tokens(rng, text, rng.randrange(1, 4))
+            kind = "gen-tok"
+        else:
+            text = corpus.mutate_bytes(rng, text, rng.randrange(1, 3))
+            kind = "gen-byte"
+        jobs.append((kind, {"main.capy": text}))
     ns = 150 if chk.tier == "quick" else 4000
     for k in range(ns):
         jobs.append(("soup", {"main.capy": corpus.token_soup(rng, rng.randrange(1, 30))}))
